@@ -1,5 +1,6 @@
 import GitSizer.Proofs.Parsers
 import GitSizer.Proofs.GenStrs
+import GitSizer.Proofs.GenObjs
 import GitSizer.Proofs.ParsersExact
 /-! # C16 — Object parsers are lossless and total
     Theorems about the statement-by-statement models of git/tree.go, git/obj_head_iter.go,
@@ -134,5 +135,44 @@ theorem listing_parsers_source (spec line : Bytes) :
     Res.sim (fun t (r : Parsers.Reference) => t = (r.refname, r.objType, r.size, r.oid))
       (Gen.Strs.ParseReference line) (Parsers.parseReference line) :=
   ⟨parseBatchHeader_regenerated spec line, parseReference_regenerated line⟩
+
+theorem sim_no_panic {α β : Type} {R : α → β → Prop} {a : Res α} {b : Res β} (h : Res.sim R a b)
+    (hb : b.isPanic = false) : a.isPanic = false := by
+  cases a <;> cases b <;> simp_all [Res.sim, Res.isPanic]
+
+/-- **the object parsers, REGENERATED.** `TreeIter.NextEntry` (git/tree.go), `NewObjectHeaderIter`
+    and `ObjectHeaderIter.Next` (git/obj_head_iter.go), `ParseCommit` (git/commit.go) and `ParseTag`
+    (git/tag.go) as translated from the source on this run — pointer receivers as state passed in
+    and out, every slice/index as a CHECKED operation, the header loops by recursion on fuel
+    len(iter.data)+1 (running out is a panic) — have exactly the models' outcome on EVERY byte
+    string: the same entry/rest, header block, (key, value, rest), (size, parents, tree),
+    (size, referent, type), or an error in the same cases. So `tree_roundtrip`, `commit_exact`,
+    `tag_exact` and the totality theorems above are statements about what the source says now. -/
+theorem object_parsers_source (name data : Bytes) :
+    Res.sim (fun (t : Bytes × Bytes × Nat × Bool × Bytes) (r : Option (Parsers.TreeEntry × Bytes)) =>
+        match r with
+        | none => t = ([], Go.zeroOID, 0, false, data)
+        | some (e, rest) => t = (e.name, e.oid, e.mode, true, rest))
+      (Gen.Objs.TreeIter_NextEntry data) (Parsers.nextEntry data) ∧
+    Res.sim (fun (t : Bytes × Bytes) (b : Bytes) => t = (name, b))
+      (Gen.Objs.NewObjectHeaderIter name data) (Parsers.headerBlock data) ∧
+    Res.sim (fun (t : Bytes × Bytes × Bytes × Bytes) (r : Bytes × Bytes × Bytes) => t = (r.1, r.2.1, name, r.2.2))
+      (Gen.Objs.ObjectHeaderIter_Next name data) (Parsers.nextHeader data) ∧
+    Res.sim (fun (x : Nat × List Bytes × Bytes) (c : Parsers.Commit) => x = (c.size, c.parents, c.tree))
+      (Gen.Objs.ParseCommit name data) (Parsers.parseCommit data) ∧
+    Res.sim (fun (x : Nat × Bytes × Bytes) (c : Parsers.Tag) => x = (c.size, c.referent, c.refType))
+      (Gen.Objs.ParseTag name data) (Parsers.parseTag data) :=
+  ⟨nextEntry_regenerated data, headerBlock_regenerated name data, nextHeader_regenerated name data,
+   parseCommit_regenerated name data, parseTag_regenerated name data⟩
+
+/-- **the source never panics**: no slice or index of the regenerated object parsers is ever out
+    of range and no loop outruns its fuel, on arbitrary bytes -/
+theorem object_parsers_source_total (name data : Bytes) :
+    (Gen.Objs.TreeIter_NextEntry data).isPanic = false ∧ (Gen.Objs.ParseCommit name data).isPanic = false ∧
+    (Gen.Objs.ParseTag name data).isPanic = false :=
+  ⟨sim_no_panic (nextEntry_regenerated data) (nextEntry_no_panic data),
+   sim_no_panic (parseCommit_regenerated name data) (parseCommit_no_panic data),
+   sim_no_panic (parseTag_regenerated name data) (parseTag_no_panic data)⟩
+
 
 end GitSizer.C16
